@@ -129,6 +129,11 @@ func (v *Verifier) VerifyFunc(fc *FuncContract) {
 		}
 		return
 	}
+	if fc.Options["bounded"] != "" && fn != nil {
+		// a verified function may still name a harness: for what its contract cannot state
+		// (e.g. that a loop under invariants visits every element), exercised on every run
+		v.addBoundedStandIn(fc)
+	}
 	if fn == nil {
 		// the function under contract no longer exists: every clause fails
 		for _, c := range fc.Clauses {
